@@ -54,11 +54,19 @@ def o2(W, ob):
     stl = [w for w in stores_in(W, f, 'last_frame') if 'self.peer_connect_status' in w['ap'].s(f)]
     ob.require_count(len(std), 1, 'merge of the disconnected flag')
     ob.require_count(len(stl), 1, 'merge of last_frame')
+    # the pairwise spelling: `self.peer_connect_status.iter_mut().zip(body.peer_connect_status.iter())` -- both elements of the pair come out of one Zip, and
+    # the provenance analysis names them after its first component; the zip of exactly these two vectors is recognised instead
+    def _iter_of(t, what):
+        return last_seg(t.callee.best) in ('iter', 'iter_mut', 'into_iter') and t.args and t.args[0].is_place() and cx.ap_carry(t.args[0].place).s(f, generic=True) == what
+    zipped = any(last_seg(t.callee.best) == 'zip' for t in f.calls()) and any(_iter_of(t, 'self.peer_connect_status') for t in f.calls()) and \
+        any(_iter_of(t, 'arg2.peer_connect_status') for t in f.calls())
     for w in stl:
         v = cx.expr_rvalue(w['site'].rv)
         ks = sorted(key(a) for a in v[1]) if v[0] == 'max' else []
         ok = v[0] == 'max' and len(ks) == 2 and any(k.startswith('arg2.peer_connect_status[') and k.endswith('.last_frame') for k in ks) and \
             any(k.startswith('self.peer_connect_status[') and k.endswith('.last_frame') for k in ks)
+        if not ok and zipped and v[0] == 'max' and len(ks) == 2:
+            ok = all(k.endswith('.last_frame') and 'peer_connect_status[' in k for k in ks)
         ob.check(ok, 'on_input|merge-last_frame-max', 'the peer\'s view of last_frame is merged with max',
                  'peer_connect_status[i].last_frame := %s (expected max(own, received))' % key(v), where(f, w['line']))
     for w in std:
@@ -92,6 +100,7 @@ def o2(W, ob):
     rng = [s for s in f.stmts() if s.k == 'assign' and s.rv.k == 'agg' and s.rv.j.get('ak') == 'adt' and s.rv.j['adt'].endswith('ops::Range')]
     okr = any(key(cx.expr_operand(dict(zip(s.rv.j['fields'], s.rv.ops))['end'])) == 'len(self.peer_connect_status)' and
               dict(zip(s.rv.j['fields'], s.rv.ops))['start'].const_int() == 0 for s in rng)
+    okr = okr or zipped     # a zip of the two vectors (equal length behind the shape check) visits every entry
     ob.check(okr, 'on_input|merge-all-players', 'the merge covers every player entry', 'the status merge does not iterate over 0..peer_connect_status.len()', where(f))
 
 
@@ -103,32 +112,54 @@ def o3(W, ob):
     u = W.fn(P2P + '::update_player_disconnects')
     cx = W.ctx(u)
     G = W.guards(u)
-    calls = [t for t in u.calls() if callee_matches(t.callee, P2P + '::disconnect_player_at_frame')]
-    ob.require_count(len(calls), 1, 'adoption call in update_player_disconnects')
-    for t in calls:
-        g = G.guard(t.bb)
-        # !queue_connected & (local_connected | local_min > queue_min)
-        okq = every_disjunct_has(g, lambda a: a[0] == 'bool' and 'queue_connected' in a[1] and a[2] is False)
-        oka = bool(g) and all(any(a[0] == 'bool' and a[1].endswith('.disconnected') and 'local_connect_status' in a[1] and a[2] is False for a in c) or
-                              any(a[0] == 'lin' and any('queue_min_confirmed' in k for k, _ in a[1]) and any('local_connect_status' in k and k.endswith('.last_frame') for k, _ in a[1]) for a in c)
-                              for c in g)
-        # condition => guard: both alternatives must be able to trigger the adoption
-        alt_connected = any(any(a[0] == 'bool' and a[1].endswith('.disconnected') and 'local_connect_status' in a[1] and a[2] is False for a in c) for c in g)
-        alt_later = any(any(a[0] == 'lin' and any('queue_min_confirmed' in k for k, _ in a[1]) and any('local_connect_status' in k and k.endswith('.last_frame') for k, _ in a[1]) for a in c) and
-                        not any(a[0] == 'bool' and a[1].endswith('.disconnected') and 'local_connect_status' in a[1] and a[2] is False for a in c) for c in g)
-        oka = oka and alt_connected and alt_later
-        ob.check(okq and oka, 'update_player_disconnects|adoption-condition',
-                 'a player some peer reports as disconnected is disconnected locally if still connected here or cut off later here',
-                 'adoption guard: ' + dnf_str(g)[:300], where(u, t.line))
-        a2 = key(cx.expr_operand(t.args[2]))
-        ob.check('queue_min_confirmed' in a2, 'update_player_disconnects|adopts-min', 'the adopted cut-off is the minimum over the peers\' views',
-                 'disconnect_player_at_frame receives `%s`' % a2, where(u, t.line))
-    # the reductions: queue_connected &&= connected ; queue_min = min(queue_min, ...) over running endpoints
     accs = {}
     for l in range(len(u.locals)):
         nm = u.local_name(l)
         if nm in ('queue_connected', 'queue_min_confirmed'):
             accs[nm] = l
+    if len(accs) != 2:
+        # renamed: the two named locals with several definitions one of which is the neutral element of the reduction (`true` for &&, i32::MAX for min)
+        accs = {}
+        for l in range(u.argc + 1, len(u.locals)):
+            if not u.local_name(l):
+                continue
+            dl = cx.full_defs(l)
+            if len(dl) < 2:
+                continue
+            inits = [key(cx.expr_rvalue(d.rv)) for k, d in dl if k == 'stmt']
+            ty = u.local_ty(l) or ''
+            if ty == 'bool' and '1' in inits:
+                accs.setdefault('queue_connected', l)
+            if ty == 'i32' and any(x in ('2147483647', 'i32::MAX', 'MAX') or x.endswith('::MAX') for x in inits):
+                accs.setdefault('queue_min_confirmed', l)
+    adopted = []
+    qc = '#%d' % accs['queue_connected'] if 'queue_connected' in accs else 'queue_connected'
+    qm = '#%d' % accs['queue_min_confirmed'] if 'queue_min_confirmed' in accs else 'queue_min_confirmed'
+    calls = [t for t in u.calls() if callee_matches(t.callee, P2P + '::disconnect_player_at_frame')]
+    ob.require_count(len(calls), 1, 'adoption call in update_player_disconnects')
+    for t in calls:
+        g = G.guard(t.bb)
+        # !queue_connected & (local_connected | local_min > queue_min)
+        okq = every_disjunct_has(g, lambda a: a[0] == 'bool' and ('queue_connected' in a[1] or a[1].endswith(qc)) and a[2] is False)
+        oka = bool(g) and all(any(a[0] == 'bool' and a[1].endswith('.disconnected') and 'local_connect_status' in a[1] and a[2] is False for a in c) or
+                              any(a[0] == 'lin' and any('queue_min_confirmed' in k or k.endswith(qm) for k, _ in a[1]) and any('local_connect_status' in k and k.endswith('.last_frame') for k, _ in a[1]) for a in c)
+                              for c in g)
+        # condition => guard: both alternatives must be able to trigger the adoption
+        alt_connected = any(any(a[0] == 'bool' and a[1].endswith('.disconnected') and 'local_connect_status' in a[1] and a[2] is False for a in c) for c in g)
+        alt_later = any(any(a[0] == 'lin' and any('queue_min_confirmed' in k or k.endswith(qm) for k, _ in a[1]) and any('local_connect_status' in k and k.endswith('.last_frame') for k, _ in a[1]) for a in c) and
+                        not any(a[0] == 'bool' and a[1].endswith('.disconnected') and 'local_connect_status' in a[1] and a[2] is False for a in c) for c in g)
+        oka = oka and alt_connected and alt_later
+        ob.check(okq and oka, 'update_player_disconnects|adoption-condition',
+                 'a player some peer reports as disconnected is disconnected locally if still connected here or cut off later here',
+                 'adoption guard: ' + dnf_str(g)[:300], where(u, t.line))
+        a2e = cx.expr_operand(t.args[2])
+        a2 = key(a2e)
+        adopted.append((t, a2e, a2))
+    # the reductions: queue_connected &&= connected ; queue_min = min(queue_min, ...) over running endpoints
+    for t, a2e, a2 in adopted:
+        is_min = 'queue_min_confirmed' in a2 or (a2e[0] == 'var' and a2e[1] == accs.get('queue_min_confirmed'))
+        ob.check(is_min, 'update_player_disconnects|adopts-min', 'the adopted cut-off is the minimum over the peers\' views',
+                 'disconnect_player_at_frame receives `%s`' % a2, where(u, t.line))
     ob.check(len(accs) == 2, 'update_player_disconnects|accumulators', 'reduction accumulators found', 'reduction accumulators not found', where(u))
     if 'queue_min_confirmed' in accs:
         ds = cx.full_defs(accs['queue_min_confirmed'])
